@@ -45,7 +45,29 @@ def must_effects(prog, cname, mname, _depth=0, _after=None):
                         if is_self_attr(x):
                             out.append(('set', x.attr, st))
             elif isinstance(st, ast.Expr):
-                out += expr(st.value)
+                v = st.value
+                # `self.__dict__.pop('f', None)`: the instance attribute goes, reads fall back to the class-level default / the memoised
+                # property is computed afresh
+                if isinstance(v, ast.Call) and isinstance(v.func, ast.Attribute) and v.func.attr == 'pop' and unparse(v.func.value) == 'self.__dict__' and v.args \
+                        and isinstance(v.args[0], ast.Constant) and isinstance(v.args[0].value, str) and len(v.args) == 2:
+                    out.append(('set', v.args[0].value, st))
+                else:
+                    out += expr(v)
+            elif isinstance(st, ast.Delete):
+                for t in st.targets:
+                    if is_self_attr(t):
+                        out.append(('set', t.attr, st))
+            elif isinstance(st, ast.For) and isinstance(st.target, ast.Name) and is_self_attr(st.iter) and len(st.body) == 1 and isinstance(st.body[0], ast.Expr) \
+                    and isinstance(st.body[0].value, ast.Call) and unparse(st.body[0].value.func) == 'self.__dict__.pop' and len(st.body[0].value.args) == 2 \
+                    and unparse(st.body[0].value.args[0]) == st.target.id and not st.orelse:
+                # `for name in self.T: self.__dict__.pop(name, None)` with T a class-level tuple of names, read for the concrete class
+                for k_ in prog.mro(cname):
+                    kc_ = prog.classes.get(k_)
+                    if kc_ is not None and st.iter.attr in kc_.assigns:
+                        tv = kc_.assigns[st.iter.attr]
+                        if isinstance(tv, (ast.Tuple, ast.List)) and all(isinstance(e_, ast.Constant) and isinstance(e_.value, str) for e_ in tv.elts):
+                            out += [('set', e_.value, st) for e_ in tv.elts]
+                        break
             elif isinstance(st, ast.If):
                 a, b = block(st.body), block(st.orelse)
                 keys_b = {(k, v) for (k, v, _n) in b}
@@ -876,7 +898,11 @@ def shared_class_state(ctx, rule, class_names, consequence):
                         continue
                     for x in walk_shallow(f2):
                         if is_self_attr(x) and isinstance(x.ctx, (ast.Store, ast.Del)) and x.attr in reads:
-                            rebound.append((sub, m2, x.attr))
+                            # ... unless the same method certainly drops the memo (del self.<name> / self.__dict__.pop('<name>', None), also through
+                            # a class-level tuple of names) on every normal path
+                            dropped = any(k == 'set' and f_ == mname for (k, f_, _n) in must_effects(prog, cname, m2))
+                            if not dropped:
+                                rebound.append((sub, m2, x.attr))
             ok = not rebound
             ctx.ob(rule, f'{cname}.{mname}:memoised', ok, sample=f'{cname}.{mname} is memoised ({decos}); reads {sorted(reads)}; re-bound later: {sorted(set(r[2] for r in rebound))}')
             if not ok:
